@@ -145,6 +145,7 @@ def allowed_dims(it, cls, **kw):
     """dimensions in {1,2,3} the constructor accepts (a dominating ValueError excludes the others)"""
     ok = []
     rejected = {}
+    first = None
     for D in (1, 2, 3):
         try:
             build(it, cls, D, **kw)
@@ -152,8 +153,12 @@ def allowed_dims(it, cls, **kw):
         except RepoRaise as e:
             if e.exc_name == "ValueError":
                 rejected[D] = f"{e.file}:{getattr(e.node, 'lineno', '?')}"
+                first = first or e
             else:
                 raise
+    if not ok and first is not None:
+        # a public class that rejects every dimension: its own ValueError is the report (no-raise policy)
+        raise first
     return ok, rejected
 
 
